@@ -927,8 +927,21 @@ def check_case(ctx, res, spec, case, quick_crash=3, kind='history'):
             r = restart(spec, target, tmp)
             cache[key] = r
         return cache[key]
+    flags = {p['name']: p['flag'] for p in spec['params']}
     for i, rec in enumerate(steps):
         if not rec['evs']:
+            # a step that is a save by the documented triggers (saveParameters(), or a change of an `auto` parameter, while
+            # no configured write is pending), was not disturbed and returned normally, but touched no file: the file
+            # must hold the values already ("loading after saving restores ...")
+            act = case['acts'][i - 1] if i > 0 else None
+            if (act is not None and act.get('fault') is None and not rec['raised'] and not steps[i - 1]['writeDict']
+                    and (act['a'] == 'save' or (act['a'] == 'set' and flags.get(act['name']) == 'auto'))):
+                r = restarted(rec['target'], rec['tmp'])
+                reqs.append({'p': 'C17', 'k': 'judge_restore', 'saved': [nongiven_saved(spec, ref, rec['values'])],
+                             'restored': r['values'] if r['values'] is not None else []})
+                tags.append(('roundtrip', ('step', i)))
+                res.traces += 1
+                res.count('roundtrip.after-silent-save')
             continue
         cur = nongiven_saved(spec, ref, rec['values'])
         if rec['target'] is not None and rec['target'] == new_bytes(rec['data']):
